@@ -24,18 +24,23 @@ DRIVER = 'drv_c18'
 CLAIM = {
     'technique': 'Lean 4 proof over C (roots of unity, geometric sums, DFT) + kernel-decided prime table + '
                  'differential correspondence',
-    'text': 'For the model of the reference-signal code: the generated prime table selects the largest prime <= size '
-            'for every size 2..1200 (decide +kernel on the table regenerated from the source); cyclic extension, '
-            'unit amplitude, periodicity, zero cyclic autocorrelation at every non-zero lag, flat spectrum and '
-            'cyclic-shift orthogonality are proved for all root indexes / lengths; the CAZAC estimators (plain, comb, '
-            'cover code, any number of antennas, normalised or not) are proved to return the exact frequency response '
-            'of every channel that fits in the kept taps and to reject users whose taps avoid the kept window; the LS '
-            'estimator is proved exact for every pilot matrix with invertible Gram matrix. The model is tied to the '
-            'code by seeded correspondence on every run.',
+    'text': 'For the model of the reference-signal code: the prime table regenerated from the source selects the '
+            'largest prime <= size for every size 2..1200 (decide +kernel + Nat.Prime specification); '
+            'RootSequence(u, size) for every size 25..1200 and 0 < u < Nzc is the cyclically repeated Zadoff-Chu '
+            'sequence of that prime length with unit amplitude, zero cyclic autocorrelation at every non-zero lag '
+            'and flat spectrum; shifted user sequences are orthogonal whenever D | length; the CAZAC estimators '
+            '(plain, comb, cover code; any number of antennas; normalised or not; extra_dimension layouts) return '
+            'exactly the frequency response of every channel that fits the kept taps, also in the presence of any '
+            'number of users on other cyclic shifts whose delay spread fits one shift window (or, with cover '
+            'codes, users with an orthogonal cover code); the LS estimator is exact for every pilot matrix of full '
+            'row rank. All statements are for all inputs (no size bound) over C; the model is tied to the code by '
+            'the generated tables and by seeded exact/1e-9 correspondence on every run.',
     'note': 'np.fft.fft/ifft are replaced by their defining DFT sums and np.linalg.norm/inv by parameters with a '
-            'contract (checked numerically per case); binary64 rounding (exp of large arguments, FFT) is outside the '
-            'theorems: sequence values are compared with tolerance 1e-12 + 16*eps*|argument|, estimator outputs '
-            'with 1e-9 relative. Root index 0 (all-ones sequence) is excluded from the CAZAC clause (guard 0 < u).',
+            'contract (all three checked numerically per run); binary64 rounding (exp of large arguments, FFT) is '
+            'outside the theorems: sequence values are compared with tolerance 1e-12 + 16*eps*|argument|, estimator '
+            'outputs with 1e-9 relative. Root index 0 (all-ones sequence, accepted by the code) is outside the '
+            'CAZAC clause (theorem zc_root_zero_not_cazac); negative cyclic shifts and the q parameter of '
+            'calcBaseZC are not modelled (not reachable through RootSequence / the 0..D-1 shifts of the property).',
 }
 
 EPS = 2.0 ** -52
@@ -212,6 +217,17 @@ def o_zc_cazac(case):
         i = int(np.nonzero(full != a[idx])[0][0])
         return 'extension-not-cyclic', 'seq[%d] != seq[%d mod %d]' % (i, i, n)
     tol = 64 * seq_tol(u, n) * n + 1e-9 * n
+    if case.get('fast'):
+        # exhaustive sweeps: R = IDFT(|DFT a|^2) (Wiener-Khinchin) instead of the O(N^2) direct sums
+        sp = np.fft.fft(a)
+        rr = np.fft.ifft(np.abs(sp) ** 2)
+        dev = np.abs(np.abs(sp) ** 2 - n)
+        if abs(rr[0] - n) > tol or (n > 1 and np.abs(rr[1:]).max() > tol):
+            t = int(np.argmax(np.abs(rr[1:]))) + 1 if n > 1 else 0
+            return 'autocorr-nonzero', '|R[%d]| = %.3e (N=%d, u=%d)' % (t, abs(rr[t]), n, u)
+        if dev.max() > tol * 4:
+            return 'spectrum-not-flat', 'max | |A_k|^2 - N | = %.3e (N=%d, u=%d)' % (dev.max(), n, u)
+        return None
     rr = circ_autocorr(a)
     if abs(rr[0] - n) > tol:
         return 'autocorr-nonzero', 'R[0]=%s, expected %d' % (rr[0], n)
@@ -452,7 +468,7 @@ def gen_ls_case(rng):
             g = a @ a.conj().T
             # exact integer determinant test via fractions would be overkill: |det| of an integer Gram matrix is an
             # integer, so > 0.5 means non-singular
-            if abs(np.linalg.det(g)) > 0.5 and np.linalg.cond(g) < 1e6:
+            if abs(np.linalg.det(g)) > 0.5 and np.linalg.cond(g) < 1e4:
                 return s
     return {'shape': shape, 'H': [gi(nr, nt) for _ in range(reps)],
             'S': [full_rank_s() for _ in range(reps if shape == '3d-own' else 1)]}
@@ -466,7 +482,7 @@ def corr_lookup(ctx, drv, smax):
     for s, mo in zip(sizes, out):
         try:
             im = str(int(rs.RootSequence._get_largest_prime_lower_than_number(s)))
-        except IndexError as e:
+        except Exception as e:
             im = err_name(e)
         ctx.corr('prime_lookup', s, im, mo, nontrivial=s >= 2, key=('lookup', s))
     ctx.branch('lookup:size>=1013', sum(1 for s in sizes if s >= 1013))
@@ -483,7 +499,7 @@ def corr_extended(ctx, drv, nmax, smax, nrand):
     for (n, s), mo in zip(cases, out):
         try:
             im = ','.join(str(int(v)) for v in zc.get_extended_ZF(np.arange(n), s))
-        except ZeroDivisionError as e:
+        except Exception as e:
             im = err_name(e)
         ctx.corr('get_extended_ZF', (n, s), im, mo, nontrivial=n > 0 and s > n, key=('ext', n, s))
         ctx.branch('ext:repeat-branch' if s > 2 * n else ('ext:short' if s < n else 'ext:single-branch'))
@@ -525,7 +541,7 @@ def corr_root(ctx, drv, quick):
         key = ('root', u, s, z)
         try:
             r = impl_root(u, s, z)
-        except (AttributeError, IndexError, KeyError, AssertionError) as e:
+        except Exception as e:
             ctx.corr('RootSequence.__init__', case, err_name(e), mo, key=key)
             ctx.branch('root:' + err_name(e))
             continue
@@ -563,11 +579,18 @@ def corr_ue(ctx, drv, n):
     for spec, mo in zip(specs, out):
         try:
             ue = impl_ue(spec)
-        except AssertionError as e:
+            arr = np.atleast_2d(np.asarray(ue.seq_array()))
+        except Exception as e:
             ctx.corr('UeSequence.__init__', spec, err_name(e), mo)
             ctx.branch('ue:' + err_name(e))
             continue
-        arr = np.atleast_2d(np.asarray(ue.seq_array()))
+        if spec['norm']:
+            # contract of the external kernel np.linalg.norm used by the model's `nu`: real, nu^2 = sum |x|^2
+            raw = np.atleast_2d(np.asarray(impl_ue(dict(spec, norm=0)).seq_array()))[0]
+            nu = np.linalg.norm(raw)
+            if not (np.isreal(nu) and abs(nu * nu - float(np.sum(np.abs(raw) ** 2))) <= 1e-9 * max(1.0, nu * nu)):
+                ctx.tie_broken('tie', 'contract:np.linalg.norm', 'norm^2 != sum |x|^2', spec)
+            ctx.branch('contract:np.linalg.norm')
         scale = max(1.0, float(np.max(np.abs(arr))))
         corr_close(ctx, 'UeSequence.__init__', spec, arr, parse_crows(mo), seq_tol(spec['u'], arr.shape[1]) * scale)
         ctx.branch('ue:cover' if spec['cover'] is not None else 'ue:plain')
@@ -588,8 +611,14 @@ def corr_estimators(ctx, drv, n, nbig):
             spec['nzc'] = None
             spec['u'] = rng.randint(1, largest_prime_le(spec['size']) - 1)
         raw_ref = spec['cover'] is None and rng.chance(0.15)
-        ue = impl_ue(spec)
-        size = ue.size
+        try:
+            ue = impl_ue(spec)
+            size = ue.size
+            if spec['cover'] is not None:
+                ce.CazacBasedWithOCCChannelEstimator(ue)
+        except Exception as e:   # construction must succeed for every generated specification
+            ctx.corr('estimator-construction', spec, err_name(e), 'ok')
+            continue
         nr = rng.choice([0, 0, 1, 2, 3, 4])          # 0 = 1-D input
         k = rng.choice([0, 1, 3, size // 8, size // 2, size - 1, size, size + 5, rng.randint(0, size)])
         if spec['cover'] is None:
@@ -635,7 +664,7 @@ def corr_estimators(ctx, drv, n, nbig):
                 res = est.estimate_channel_freq_domain(y, k)
             else:
                 res = est.estimate_channel_freq_domain(y, k, extra_dimension=extra)
-        except ValueError as e:
+        except Exception as e:
             ctx.corr(name, case, err_name(e), mo)
             ctx.branch('est:' + err_name(e))
             continue
@@ -680,12 +709,16 @@ def corr_ls(ctx, drv, n):
     for (shape, y, sm), mo in zip(todo, out):
         case = {'shape': shape, 'Y': [[[z.real, z.imag] for z in row] for row in y],
                 'S': [[[z.real, z.imag] for z in row] for row in sm]}
-        if shape == '2d':
-            res = est.compute_ls_estimation(y, sm)
-        elif shape == '3d-shared':
-            res = est.compute_ls_estimation(np.array([y, y]), sm)[1]
-        else:
-            res = est.compute_ls_estimation(np.array([y, y]), np.array([sm, sm]))[0]
+        try:
+            if shape == '2d':
+                res = est.compute_ls_estimation(y, sm)
+            elif shape == '3d-shared':
+                res = est.compute_ls_estimation(np.array([y, y]), sm)[1]
+            else:
+                res = est.compute_ls_estimation(np.array([y, y]), np.array([sm, sm]))[0]
+        except Exception as e:
+            ctx.corr('compute_ls_estimation', case, err_name(e), mo)
+            continue
         if mo == 'singular' or not mo.startswith('inv-ok '):
             ctx.corr('compute_ls_estimation', case, 'regular', mo)
             continue
@@ -736,10 +769,15 @@ def oracle_runs(ctx, quick):
         for u in sorted(us):
             run_oracle(ctx, 'RootSequence.seq_array', {'u': u, 'size': s}, key=('cazac', u, s))
     if not quick:
-        # every root index for a band of sizes
+        # every root index for a band of sizes (direct sums) ...
         for s in (25, 31, 36, 47, 48, 60, 61, 72):
             for u in range(1, largest_prime_le(s)):
                 run_oracle(ctx, 'RootSequence.seq_array', {'u': u, 'size': s}, key=('cazac', u, s))
+        # ... and every (root index, size) for size <= 300 (FFT-based evaluation of the same quantities)
+        for s in range(25, 301):
+            for u in range(1, largest_prime_le(s)):
+                run_oracle(ctx, 'RootSequence.seq_array', {'u': u, 'size': s, 'fast': True}, key=('cazacf', u, s))
+        ctx.branch('cazac:all-roots-size<=300')
     for n in range(1, 9):
         for s in range(n, 4 * n + 3):
             run_oracle(ctx, 'get_extended_ZF', {'n': n, 'size': s}, key=('ext', n, s))
@@ -771,6 +809,19 @@ def oracle_runs(ctx, quick):
         run_oracle(ctx, 'compute_ls_estimation', gen_ls_case(rng))
 
 
+def corpus_runs(ctx):
+    """corpus/c18/*.json: boundary and past-failure inputs, run first whatever the seed"""
+    import glob
+    import json
+    import os
+    for fn in sorted(glob.glob(os.path.join(core.VERIF, 'corpus', 'c18', '*.json'))):
+        with open(fn) as f:
+            doc = json.load(f)
+        for item in doc['cases']:
+            run_oracle(ctx, item['call'], item['case'], key=('corpus', os.path.basename(fn), repr(item['case'])))
+            ctx.branch('corpus')
+
+
 # ------------------------------------------------------------------ entry points
 def check(ctx):
     quick = ctx.tier == 'quick'
@@ -785,7 +836,7 @@ def check(ctx):
                              'root:error:AttributeError', 'root:error:AssertionError', 'root:error:KeyError',
                              'root:error:IndexError', 'ext:repeat-branch', 'ext:single-branch',
                              'ue:cover', 'ue:normalized', 'est:est:1d', 'est:est:2d', 'est:occ:2d', 'est:occ:3d',
-                             'est:normalized', 'ls:2d', 'ls:3d-shared', 'ls:3d-own', 'contract:np.fft',
+                             'est:normalized', 'ls:2d', 'ls:3d-shared', 'ls:3d-own', 'contract:np.fft', 'contract:np.linalg.norm',
                              'oracle-est:occ', 'oracle-est:comb', 'oracle-est:plain', 'oracle-est:multi-user',
                              'oracle-est:multi-antenna', 'oracle-est:normalized']
     try:
@@ -800,8 +851,9 @@ def check(ctx):
         if not ctx.broken:
             raise
         ctx.notes.append('correspondence skipped: %s' % e)
-        ctx.required_branches = [b for b in ctx.required_branches if b.startswith('oracle') or b.startswith('contract')]
+        ctx.required_branches = [b for b in ctx.required_branches if b.startswith('oracle') or b == 'contract:np.fft']
     fft_contract(ctx, 20 if quick else 200)
+    corpus_runs(ctx)
     oracle_runs(ctx, quick)
     ctx.sample({'call': 'prime_lookup', 'size': 1200, 'model': 'last of smallPrimeList.filter (<= size)'})
     ctx.sample({'call': 'RootSequence.seq_array', 'u': 25, 'size': 150,
